@@ -341,6 +341,12 @@ func Spec() *mon.Spec {
 			{Name: "random", Quick: 1200, Thorough: 40000, Run: runRandom},
 			{Name: "area", Quick: 6000, Thorough: 150000, Run: runArea},
 		},
-		Floors: map[string]int{},
+		Floors: map[string]int{
+			"distinct_nontrivial": 2000, "exhaustive_buffers": 19000, "moves_effective": 1000000, "kills_effective": 1000000,
+			"transposes_effective": 300000, "word_transposes_effective": 200000, "multiline_buffers": 600,
+			"buffers_where_small_and_big_words_differ": 3000, "area_events": 60000, "plain_inserts": 25000,
+			"plain_inserts_mid_buffer": 9000, "abbr_expanded_simple": 3000, "abbr_expanded_small": 700, "abbr_expanded_command": 100,
+			"backspaces_effective": 2000, "bound_commands_effective": 3500, "pastes_inserted": 2500, "pastes_quoted": 1400,
+		},
 	}
 }
